@@ -89,7 +89,12 @@ def outputs(tr):
         if l["ev"]["t"] == "End":
             break
         if l["outC"] or l["outB"]:
-            out.append((l["now"], [tuple(p[k] for k in core) for p in l["outC"]], [tuple(m[k] for k in mcore) for m in l["outB"]]))
+            oc = [tuple(p[k] for k in core) for p in l["outC"]]
+            ob = [tuple(m[k] for k in mcore) for m in l["outB"]]
+            if l["ev"]["t"] == "Adv":
+                # several timers firing in the same tick run in no particular order
+                oc, ob = sorted(oc, key=repr), sorted(ob, key=repr)
+            out.append((l["now"], oc, ob))
     last = [l for l in tr if l["ev"]["t"] != "End"][-1]
     return out, (last["st"], last["ended"], last["bclosed"], json.dumps(last["reg"]))
 
